@@ -129,12 +129,38 @@ fn once(gsrc: String, input: String, cost: u8) -> Result<String, String> {
     }
 }
 
+/// C07's first clause on its own: for a grammar in which no rule derives just itself, the parse returns (whatever
+/// conflicts the table construction settled).  Used to replay the recorded finding about hidden left recursion.
+pub fn run_returns(g: &str, input: &str) -> Outcome {
+    let expected = "the parse returns".to_string();
+    let grm = match YaccGrammar::<u32>::new_with_storaget(YaccKind::Original(YaccOriginalActionKind::GenericParseTree), g) { Ok(x) => x, Err(_) => return Outcome { fails: false, observed: "not a grammar".into(), expected } };
+    if cyclic(&grm) { return Outcome { fails: false, observed: "a rule derives just itself: outside the property".into(), expected }; }
+    let (tx, rx) = mpsc::channel();
+    let (g2, i2) = (g.to_string(), input.to_string());
+    std::thread::spawn(move || {
+        let grm = YaccGrammar::<u32>::new_with_storaget(YaccKind::Original(YaccOriginalActionKind::GenericParseTree), &g2).unwrap();
+        let (_, stable) = match from_yacc(&grm, Minimiser::Pager) { Ok(x) => x, Err(_) => { let _ = tx.send(()); return; } };
+        let mut lexerdef = LRNonStreamingLexerDef::<LT>::from_str(LEX).unwrap();
+        let ids: std::collections::HashMap<&str, u32> = grm.tokens_map().into_iter().map(|(k, v)| (k, u32::from(v))).collect();
+        lexerdef.set_rule_ids(&ids);
+        let lexer = lexerdef.lexer(&i2);
+        let pb = RTParserBuilder::new(&grm, &stable).recoverer(RecoveryKind::None);
+        #[allow(deprecated)]
+        let _ = catch_unwind(AssertUnwindSafe(|| pb.parse_generictree(&lexer)));
+        let _ = tx.send(());
+    });
+    match rx.recv_timeout(crate::tmo(2000)) {
+        Ok(()) => Outcome { fails: false, observed: "returned".into(), expected },
+        Err(_) => Outcome { fails: true, observed: "no result after 2 s, without error recovery (the parser keeps reducing)".into(), expected },
+    }
+}
+
 pub fn run(g: &str, input: &str, cost: u8) -> Outcome {
     let (tx, rx) = mpsc::channel();
     let (g2, i2) = (g.to_string(), input.to_string());
     std::thread::spawn(move || { let _ = tx.send(once(g2, i2, cost)); });
     let expected = "parse returns; errors in increasing position, all but the last with repairs; value iff all repaired".to_string();
-    match rx.recv_timeout(Duration::from_millis(8000)) {
+    match rx.recv_timeout(crate::tmo(8000)) {
         Ok(Ok(d)) => Outcome { fails: false, observed: d, expected },
         Ok(Err(d)) => Outcome { fails: d != "grammar" && d != "table" && d != "lexer", observed: d, expected },
         Err(_) => Outcome { fails: true, observed: "no result after 8 s (the recovery budget is 0.5 s per error)".into(), expected },
